@@ -61,6 +61,7 @@ impl Prop for C12 {
             queue,
             controllers: 1,
             tree: TreeDesc::default(),
+            plain488: false,
         };
         let mut t = base_trace("C12", seed, run, "history", cfg);
         // swarm: producer / consumer rates
